@@ -24,8 +24,10 @@ def crc_part(chk, tier):
     binary = common.build_harness("h_util")
     maxlen = 40 if tier == "quick" else 70
     pats = "{0, 2, 3}" if tier == "quick" else "{0, 1, 2, 3, 4}"
-    cfgt = ('CONSTANTS\n MaxLen = %d\n Patterns = %s\n Kind = "crc"\nINIT Init\nNEXT Next\n'
-            'INVARIANT Emit\nCHECK_DEADLOCK FALSE\n' % (maxlen, pats))
+    # large inputs: implementations pick code paths by length (slicing loops, hardware CRC for big buffers, ...)
+    big = "{4096, 65535, 65536, 65537, 70001}" if tier == "quick" else "{4096, 32768, 65535, 65536, 65537, 70001, 131072, 300000, 1048577}"
+    cfgt = ('CONSTANTS\n MaxLen = %d\n Patterns = %s\n Kind = "crc"\n BigLens = %s\nINIT Init\nNEXT Next\n'
+            'INVARIANT Emit\nCHECK_DEADLOCK FALSE\n' % (maxlen, pats, big))
     r = common.run_tlc("MC_HashCases", constants_text=cfgt, timeout=3000)
     if r.violated:
         chk.violation("crc-spec:composition", "CRC composition law fails on the specification itself", r.out[-1500:])
